@@ -147,6 +147,17 @@ META.update({
     },
 })
 
+META.update({
+    "C20": {
+        "text": "HalfLife.tla is the doubling / bisection search as a state machine over every above-1/2 pattern; TLC checks "
+                "NoUnderflow, BracketInv, InRange, ResultLaw and the liveness property Terminates under weak fairness. "
+                "Composite.tla decides the pattern of a concrete integer series exactly, defines winsorize as clipping to "
+                "exact bounds and Spearman as Pearson of average ranks." + ENUM,
+        "note": NOTE + " Exact-1/2 autocorrelations and non-monotone patterns are compared on range / termination only.",
+        "design": "DESIGN.md section 6 C20",
+    },
+})
+
 DEFAULT_NA = "check not built yet in this round (work in progress; see DESIGN.md section 11)"
 
 
